@@ -399,10 +399,21 @@ func ruleT6(c *Ctx) {
 			continue
 		}
 		ok := false
+		// the reg-field argument of calculateModRM: its byte-typed parameter, wherever it stands
+		regIdx := 2
+		if cm := c.L.SSAFunc("internal/codegen", "calculateModRM"); cm != nil {
+			for i, prm := range cm.Params {
+				if bt, isB := prm.Type().Underlying().(*types.Basic); isB && bt.Kind() == types.Uint8 {
+					regIdx = i
+				}
+			}
+		}
 		callsIn(g, func(ci ssa.CallInstruction) {
 			if strings.HasSuffix(calleeName(ci.Common()), ".calculateModRM") {
-				if k, isK := ci.Common().Args[2].(*ssa.Const); isK && k.Int64() == t.ext<<3 {
-					ok = true
+				if regIdx < len(ci.Common().Args) {
+					if k, isK := ci.Common().Args[regIdx].(*ssa.Const); isK && k.Int64() == t.ext<<3 {
+						ok = true
+					}
 				}
 				return
 			}
@@ -419,7 +430,10 @@ func ruleT6(c *Ctx) {
 			}
 			callsIn(h, func(cj ssa.CallInstruction) {
 				if strings.HasSuffix(calleeName(cj.Common()), ".calculateModRM") {
-					if v, isK := evalConstBound(cj.Common().Args[2], bind, 0); isK && v == t.ext<<3 {
+					if regIdx >= len(cj.Common().Args) {
+						return
+					}
+					if v, isK := evalConstBound(cj.Common().Args[regIdx], bind, 0); isK && v == t.ext<<3 {
 						ok = true
 					}
 				}
